@@ -36,6 +36,16 @@ let rec ex = function
   | L [A "tvia"; A i; A c; e] -> via (ni i) (ni c) (ex e)
   | L [A "on"; A i; A c; e] -> on (ni i) (ni c) (ex e)
   | L [A "wsav"; A i; A c; e] -> wsa_via (ni i) (ni c) (ex e)
+  | L [A "leafr"; A i; A l] -> LeafR (ni i, ni l)
+  | L [A "stopif"] -> StopIf
+  | L [A "lvss"; A now; e] -> Un (ULetSS (now = "1"), ex e)
+  | L [A "repeat"; A bits; e] ->
+    Un (URepeat (List.filter_map (fun c -> if c = '1' then Some true else if c = '0' then Some false else None)
+                   (List.init (String.length bits) (String.get bits))), ex e)
+  | L [A "intov"; e] -> Un (UIntoVar, ex e)
+  | L [A "retry"; A n; a; b] -> Bin (BRetry (ni n), ex a, ex b)
+  | L [A "jfrom"; f] -> just_from (fn_of f)
+  | L [A "defer"; e] -> defer (ex e)
   | L [A "then"; f; e] -> Un (UThen (fn_of f), ex e)
   | L [A "uerr"; f; e] -> Un (UUponErr (fn_of f), ex e)
   | L [A "udone"; f; e] -> Un (UUponDone (fn_of f), ex e)
@@ -60,6 +70,9 @@ let render = function
       (int_of_nat sch) (int_of_nat cx)
   | XT (TSchedStart (_, c)) -> Printf.sprintf "enq %d" (int_of_nat c)
   | XT (TSchedDtor c) -> Printf.sprintf "sdtor %d" (int_of_nat c)
+  | XT (TReqStop (id, _)) -> Printf.sprintf "reqstop %d" (int_of_nat id)
+  | XT (TPred b) -> "pred " ^ b01 b
+  | XT (TGate b) -> "gate " ^ b01 b
   | XT (TLeafStop id) -> Printf.sprintf "stopseen %d" (int_of_nat id)
   | XT (TCall (f, x)) -> Printf.sprintf "call %s %s" (str_fn f) (i x)
   | XT (TLeak r) -> Printf.sprintf "leak %s" (b01 r)
